@@ -24,7 +24,9 @@ chk.extra['rule'] = ('residue chains (2-4 residues, template atoms N CA C O CB [
                      'from a toy library (N-ter/NH, OXT/COOH, phosphate with and without H, methyl with replace, '
                      'bridges over two residues, ring on CA+CB with and without the CA-CB edge, anchor-only, random '
                      'patterns and their sub-patterns), attachments with wrong element / extra atom / extra bond, '
-                     'several on one residue, PTM atoms with a foreign resid, residues pre-labelled by `modify`; '
+                     'several on one residue, PTM atoms with a foreign resid, residues pre-labelled by `modify`; a second '
+                     'stream of two-iteration interactions (groups sharing a residue with keys [r], [r,r], [r,s]; '
+                     'known and unknown attachments in both processing orders); '
                      'a case is non-trivial if it has >= 1 flagged atom and >= 2 candidate placements in one '
                      'iteration; distinct = distinct protocol line')
 chk.trusted.append('harness/c14.py: object construction, recording wrappers, canonicalisation, Python oracle '
@@ -607,6 +609,93 @@ def gen_case(rng):
     return {'atoms': atoms, 'edges': edges, 'mods': mods, 'hist': hist}
 
 
+def gen_two_iter(rng):
+    """two iterations that interact: groups sharing a residue with different anchor-resid keys
+    (single anchor [r], two anchors [r, r], bridge [r, s]); known / unknown in both processing orders"""
+    L = lib_fixed()
+    names = ['OXT', 'SH', 'NH', 'RING', 'XL', 'ME'] + rng.sample(['COOH', 'PHOS', 'ANCHOR', 'CACB', 'OO', 'SS', 'DEL', 'NH3'],
+                                                                  rng.randint(0, 3))
+    rng.shuffle(names)
+    mods = [{'name': n, 'atoms': copy.deepcopy(L[n][0]), 'edges': copy.deepcopy(L[n][1])} for n in names]
+    nres = rng.randint(2, 3)
+    atoms, edges, byres = [], [], []
+    key = rng.choice([0, 2])
+    rid = rng.choice([1, 7, 30])
+    prevC = None
+    for r in range(nres):
+        idx = {}
+        resname = rng.choice(['ALA', 'CYS'])
+        for nm, el in TEMPLATE[:5]:
+            atoms.append([key, rid, 0, 0, [], A(nm, el, resname=resname)])
+            idx[nm] = key
+            key += 1
+        for a, b in TBONDS:
+            if a in idx and b in idx:
+                edges.append([idx[a], idx[b]])
+        if prevC is not None:
+            edges.append([prevC, idx['N']])
+        prevC = idx['C']
+        byres.append((rid, idx))
+        rid += rng.choice([1, 2])
+    hist = []
+
+    def add(rid_, elem, bonds):
+        nonlocal key
+        atoms.append([key, rid_, 1, 0, [], A('X%d' % key, elem, resname='UNK')])
+        for b in bonds:
+            edges.append([b, key])
+        key += 1
+        return key - 1
+
+    def single(ri, known):
+        """one flagged atom on one anchor: key [r]"""
+        rid_, idx = byres[ri]
+        kind = rng.choice(['OXT', 'SH', 'NH', 'ME'])
+        anchor, elem = {'OXT': ('C', 'O'), 'SH': ('CB', 'S'), 'NH': ('N', 'H'), 'ME': ('CB', 'C')}[kind]
+        if not known:
+            elem = 'P'
+        k = add(rid_, elem, [idx[anchor]])
+        if known and rng.random() < 0.2:
+            add(rid_, 'H', [k])      # extra atom: makes it unknown unless COOH etc. is in the library
+        hist.append('single_' + ('known' if known else 'unknown'))
+
+    def double(ri, known):
+        """one flagged atom on CA and CB of one residue: key [r, r]"""
+        rid_, idx = byres[ri]
+        add(rid_, 'O' if known else 'S', [idx['CA'], idx['CB']])
+        hist.append('double_' + ('known' if known else 'unknown'))
+
+    def bridge(ri, rj, known):
+        """one flagged atom between CB of two residues: key [r, s]"""
+        add(byres[rng.choice([ri, rj])][0], 'S' if known else 'O', [byres[ri][1]['CB'], byres[rj][1]['CB']])
+        hist.append('bridge_' + ('known' if known else 'unknown'))
+
+    shape = rng.choice(['single+double', 'single+bridge_low', 'single+bridge_high', 'double+bridge', 'three'])
+    k1, k2 = rng.random() < 0.6, rng.random() < 0.6
+    if shape == 'single+double':
+        single(0, k1)
+        double(0, k2)
+    elif shape == 'single+bridge_low':
+        single(0, k1)          # key [r] before [r, s]
+        bridge(0, 1, k2)
+    elif shape == 'single+bridge_high':
+        single(1, k1)          # key [s] after [r, s]
+        bridge(0, 1, k2)
+    elif shape == 'double+bridge':
+        double(rng.choice([0, 1]), k1)
+        bridge(0, 1, k2)
+    else:
+        single(0, k1)
+        double(0, k2)
+        bridge(0, 1, rng.random() < 0.6)
+        if rng.random() < 0.5:
+            single(1, rng.random() < 0.6)
+    hist.append('shape_' + shape)
+    if rng.random() < 0.3:
+        rng.shuffle(atoms)
+    return {'atoms': atoms, 'edges': edges, 'mods': mods, 'hist': hist}
+
+
 # ----------------------------------------------------------------------------
 # run
 # ----------------------------------------------------------------------------
@@ -618,6 +707,9 @@ rng = chk.rng('fixptm')
 N = 40000 if chk.thorough else 700
 for i in range(N):
     cases.append(('gen-%d' % i, gen_case(rng)))
+rng2 = chk.rng('two-iterations')
+for i in range(N // 3):
+    cases.append(('two-%d' % i, gen_two_iter(rng2)))
 
 lines, impls, meta = [], [], []
 for cid, spec in cases:
@@ -636,7 +728,7 @@ for cid, spec in cases:
     atoms_l = [[k, r, int(bool(p)), int(bool(h)), list(ml), sorted([a, v] for a, v in at.items())]
                for k, r, p, h, ml, at in spec['atoms']]
     lines.append(line('groups', atoms_l, [list(e) for e in spec['edges']]))
-    impls.append(enc([[a, b] for a, b in groups_real]))
+    impls.append(enc([[a, b] for a, b in groups_real]) + ' anchors-not-extra=1')
     meta.append((cid, spec, mods, mol0, mol, run))
 
 models = chk.drv.ask(lines) if chk.lean_ok else [None] * len(lines)
